@@ -614,6 +614,23 @@ class History:
             if self.have_regions:
                 self.regions_complete = False
                 self.labels.add("area_after_regions")
+        elif op == "readd_regions":
+            # the same regions put into the record one by one (Record.add_region, as record parsing does), in a drawn
+            # order: which region comes first must depend on the locations only, never on the order of the calls
+            if not (self.have_regions and self.regions_complete):
+                return
+            from antismash.common.secmet.features import Region
+            old = list(record.get_regions())
+            if len(old) < 2:
+                return
+            members = [(list(region.candidate_clusters), list(region.subregions)) for region in old]
+            _run("region_creation_succeeds", record.clear_regions, self._info(op))
+            order = sorted(range(len(members)), key=lambda i: (step["keys"][i % len(step["keys"])], i))
+            for index in order:
+                cands, subs = members[index]
+                region = Region(candidate_clusters=cands, subregions=subs)
+                _run("region_creation_succeeds", lambda region=region: record.add_region(region), self._info(op))
+            self.labels.add("regions_added_one_by_one")
         elif op == "create_regions":
             if self.have_regions:
                 return
@@ -677,7 +694,7 @@ class History:
             if facts["components"] >= 2 and facts["multi"]:
                 self.labels.add("regions_several_components")
         self.labels.update(_check_links(record, self.genes, complete, self.former_candidates))
-        if complete and op in ("create_regions",) + CLEARS and (self.cands_complete or not self.have_cands):
+        if complete and op in ("create_regions", "readd_regions") + CLEARS and (self.cands_complete or not self.have_cands):
             self._compare_with_fresh(op)
 
     def _compare_with_fresh(self, op: str) -> None:
@@ -1003,6 +1020,8 @@ def history_specs(draw):
             menu += ["add_candidate"] * 2
         if not regions:
             menu += ["create_regions"] * 3
+        else:
+            menu += ["readd_regions"] * 2
         menu += ["clear_regions"] * (2 if regions else 1)
         menu += ["clear_candidate_clusters"] * (2 if cands else 1)
         if subs:
@@ -1026,6 +1045,8 @@ def history_specs(draw):
         elif op == "add_candidate":
             steps.append({"op": op, "first": draw(st.integers(0, 7)), "count": draw(st.sampled_from([1, 1, 2]))})
             cands = True
+        elif op == "readd_regions":
+            steps.append({"op": op, "keys": draw(st.lists(st.integers(0, 9), min_size=3, max_size=6))})
         else:
             steps.append({"op": op})
             if op == "create_candidate_clusters":
@@ -1136,6 +1157,12 @@ def machine_factory(stats):
         @rule(first=st.integers(0, 7), count=st.sampled_from([1, 1, 2]))
         def add_candidate(self, first, count) -> None:
             self._do({"op": "add_candidate", "first": first, "count": count})
+
+        @precondition(lambda self: self.model is not None and not self.dead and self.model.have_regions
+                      and self.model.regions_complete)
+        @rule(keys=st.lists(st.integers(0, 9), min_size=3, max_size=6))
+        def readd_regions(self, keys) -> None:
+            self._do({"op": "readd_regions", "keys": keys})
 
         @precondition(lambda self: self.model is not None and not self.dead and not self.model.have_regions)
         @rule()
